@@ -293,14 +293,79 @@ def check_maximize(prog, rep, ct, order):
     return out
 
 
+def comparator_info(prog, call):
+    """binary_search_by(|probe| probe_key.cmp(&target)): -> (projected row fields, target key components) or None"""
+    snap = call[4] if len(call) > 4 else None
+    if not snap or len(snap) < 2:
+        return None
+    clos = snap[1]
+    if clos[0] != 'closure' or clos[1] not in prog.bodies:
+        return None
+    e2 = pxm.PX(prog)
+    try:
+        segs = e2.explore(clos[1], args=[('cref', clos), ('param', 2)])
+    except Exception:
+        return None
+    if len(segs) != 1 or segs[0].kind != 'return':
+        return None
+    r = segs[0].ret
+    if not (r[0] in ('pure', 'call') and r[1].split('::')[-1] == 'cmp' and len(r[2]) == 2):
+        return None
+
+    def comps(x):
+        for _ in range(4):
+            if x[0] in ('ref', 'cref') and isinstance(x[1], tuple) and x[1] and isinstance(x[1][0], str):
+                if x[0] == 'ref':
+                    try:
+                        x = e2.deref_value(segs[0].state, x)
+                    except Exception:
+                        break
+                else:
+                    x = x[1]
+            else:
+                break
+        return list(x[1]) if x[0] == 'tuple' else [x]
+    probe, target = comps(r[2][0]), comps(r[2][1])
+    proj = []
+    for c in probe:
+        ap = terms.access_path(c)
+        if ap is None or ap[0] != 2 or len(terms.strip_some(ap[1])) != 1:
+            return None       # the first operand of cmp must be built from the probed row (probe.cmp(target), not the reverse)
+        proj.append(terms.strip_some(ap[1])[0])
+    return proj, target
+
+
 def check_lookup(prog, e, rep, fn, b, call, role, proles, order, ct):
     """one binary search: key built from the right parameters (order, width, column order), extractor projects the key columns"""
     keykinds = tabrules.ROLE_KEYS[role]
     snap = call[4] if len(call) > 4 else None
     bad = []
-    if not call[1].endswith('::binary_search_by_key'):
+    if call[1].endswith('::binary_search_by'):
+        ci = comparator_info(prog, call)
+        if ci is None:
+            bad.append('INCONCLUSIVE(comparator of binary_search_by not understood)')
+        else:
+            proj, cols = ci
+            if len(cols) != len(keykinds):
+                bad.append('key has %d components, table %s is keyed by %s' % (len(cols), role, keykinds))
+            else:
+                for i, (c, kind) in enumerate(zip(cols, keykinds)):
+                    ep = encoded_param(c)
+                    if ep is None:
+                        bad.append('key component %d not understood: %s' % (i, e.short(c, 160)))
+                        continue
+                    k, o, ity, path = ep
+                    if proles.get(k) != kind:
+                        bad.append('key component %d is the integer form of the %s, the table column holds the %s' % (i, proles.get(k), kind))
+                    if o != order:
+                        bad.append('key component %d packed with %s byte order, tables are %s' % (i, o, order))
+                    if ity != ('u64' if kind == 'lang' else 'u32'):
+                        bad.append('key component %d has width %s' % (i, ity))
+            if proj != list(range(len(keykinds))):
+                bad.append('comparator projects row fields %s, the key columns are %s' % (proj, list(range(len(keykinds)))))
+    elif not call[1].endswith('::binary_search_by_key'):
         bad.append('INCONCLUSIVE(search with %s: comparator not modelled)' % call[1].split('::')[-1])
-    if snap is None or len(snap) < 3:
+    elif snap is None or len(snap) < 3:
         bad.append('search arguments not captured')
     else:
         cols = key_columns(snap[1] if snap[1][0] != 'cref' else snap[1][1]) if snap[1][0] in ('tuple', 'cref') else [snap[1]]
